@@ -221,6 +221,10 @@ func runC18(env *Env, tier string) {
 			extra[config.EndTime] = fmtTod(sc.end)
 			sc.fullWeek = true
 		}
+		if sc.startDay == sc.endDay && sc.start == sc.end {
+			// (the same set-up reached through the "StartTime == EndTime" draw)
+			sc.fullWeek = true
+		}
 		extra[config.StartDay] = dayNames[sc.startDay]
 		extra[config.EndDay] = dayShort[sc.endDay]
 	}
